@@ -41,7 +41,7 @@ func runC08(c *vc.Ctx) error {
 		}
 		return nil
 	}
-	nRandom := c.Pick(2000, 60000)
+	nRandom := c.Pick(2000, 150000)
 	cp.run(nRandom, func(i int) caseSpec {
 		return caseSpec{Name: fmt.Sprintf("random-%d", i), Ops: randomSeq(c, 8, i, false), Store: storeCfgs[i%len(storeCfgs)]}
 	})
